@@ -7,7 +7,7 @@
    observation. *)
 From Coq Require Import List Arith Bool ZArith.
 Import ListNotations.
-From Onet Require Export Base.Corr Overlay.TreeCtl Overlay.TreeCtlRace.
+From Onet Require Export Base.Corr Overlay.TreeCtl Overlay.TreeCtlRace Tree.TreeGenNary.
 
 (* which repairs the code under /repo currently contains *)
 Definition code_fixed_F06 := true.   (* proposed_fixes/C07-F06.diff *)
@@ -59,6 +59,7 @@ Inductive case :=
 | CProp (t : ztree) (views : list view)
 | CHist (ops : list zop) (snaps : list snap)
 | CRace (acts : list (ract Z)) (snaps : list snap)   (* histories with responses held between test and store *)
+| CGen (N root : nat) (t : ztree)   (* the tree GenerateNaryTreeWithRoot(N, member root) returned *)
 | CSetup (why : nat).      (* the implementation could not even produce the input: see clause 10 *)
 
 (* ---- decidable equalities --------------------------------------------------------- *)
@@ -285,6 +286,20 @@ Fixpoint rreplay (r : rst Z) (acts : list (ract Z)) (obs : list snap) : bool :=
   | _, _ => false
   end.
 
+(* node and tree ids are hashes (C13): the generator's tree is compared up to them *)
+Fixpoint zero_ids (n : znode) : znode :=
+  match n with Node _ srv i g ch => Node 0 srv i g (map zero_ids ch) end.
+
+Definition gen_agrees (N root : nat) (t : ztree) : bool :=
+  match t_ro t with
+  | None => false
+  | Some ro =>
+      match nary_tree Z.add (fun _ => 0) (t_id t) ro N root with
+      | Some m => node_eqb (zero_ids (t_root m)) (zero_ids (t_root t))
+      | None => false
+      end
+  end.
+
 Definition agree (c : case) : bool :=
   match c with
   | CRound _ t ro tm direct bytes binary =>
@@ -308,6 +323,7 @@ Definition agree (c : case) : bool :=
   | CProp t views => forallb (view_agrees t) views
   | CHist ops snaps => replay init ops snaps
   | CRace acts snaps => rreplay rinit acts snaps
+  | CGen N root t => gen_agrees N root t
   | CSetup _ => false
   end.
 
@@ -510,7 +526,9 @@ Definition check (c : case) : list nat :=
   | CRound expect_wf t ro tm direct bytes binary =>
       clause 10 ((negb expect_wf || sender_wf t) && negb (broken direct || broken bytes || broken binary)) ++
       let own := match t_ro t, ro with Some a, Some b => roster_eqb a b | _, _ => false end in
-      (if sender_wf t then
+      (* demanded when the sender's tree is well-formed, and also when its construction
+         (NewTree / a generator over distinct keyed servers) obliges it to be *)
+      (if sender_wf t || expect_wf then
          clause 1 ((negb own || (same_tree t direct && same_tree t bytes)) && same_tree t binary)
        else []) ++
       (if own && sender_wf t then [] else
@@ -534,16 +552,16 @@ Definition check (c : case) : list nat :=
       | _ => clause 2 (match obs with RErr _ => true | _ => false end)
       end
   | CProp t views =>
-      if sender_wf t then
+      clause 10 (sender_wf t) ++      (* propagation senders are always built by NewTree / a generator *)
         clause 4 (forallb (fun v => match v_obs v with
                                     | VOk t' links ro ids =>
                                         tree_eqb t t' && links && opt_eqb roster_eqb (t_ro t) ro &&
                                         list_eqb Nat.eqb (list_ids (t_root t)) ids
                                     | _ => false
                                     end) views)
-      else [10]                     (* propagation senders are always built by NewTree *)
   | CHist ops snaps => check_hist [] None ops snaps
   | CRace acts snaps => check_hist [] None (map as_op acts) snaps
+  | CGen _ _ t => clause 10 (sender_wf t)
   | CSetup why => if why =? 6 then [11] else [10]
   end.
 
